@@ -45,10 +45,12 @@ structure MetaData (μ : Type) where
 structure Pt (α μ : Type) where
   value : α
   md : MetaData μ
+  deriving DecidableEq
 
 structure Ct (α μ : Type) where
   value : List α
   md : MetaData μ
+  deriving DecidableEq
 
 section generic
 variable {α : Type} [Add α] [Mul α] [Neg α] [Sub α]
@@ -171,7 +173,7 @@ end qp
 structure RQ where
   ci : Bool
   p : RPoly
-  deriving BEq, Repr, Inhabited
+  deriving BEq, Repr, Inhabited, DecidableEq
 
 namespace RQ
 
@@ -329,3 +331,30 @@ def decryptAt {μ : Type} (sQ : RQ) (lc lp : Nat) (ct : Ct RQ μ) : Res (Nat × 
 
 end RQ
 end Lattigo.RLWE
+
+/-! ## The integer ring `Z[X]/(X^N+1)` on coefficient lists (for the norm statements)
+
+  Exact (no modulus) negacyclic product with the same index formula as `RPoly.rowMul`:
+  `(a·b)_k = Σ_{i≤k} a_i b_{k-i} − Σ_{i>k} a_i b_{N+k-i}`. -/
+namespace Lattigo.ZPoly
+
+def coeff (a : List Int) (i : Nat) : Int := a.getD i 0
+
+def mulTerm (b : List Int) (n k : Nat) (xi : Int × Nat) : Int :=
+  if xi.2 ≤ k then xi.1 * coeff b (k - xi.2) else -(xi.1 * coeff b (n + k - xi.2))
+
+def mulCoeff (a b : List Int) (k : Nat) : Int := ((a.zipIdx).map (mulTerm b a.length k)).sum
+
+def mul (a b : List Int) : List Int := (List.range a.length).map (mulCoeff a b)
+
+def add (a b : List Int) : List Int := List.zipWith (· + ·) a b
+
+def sub (a b : List Int) : List Int := List.zipWith (· - ·) a b
+
+def smul (k : Int) (a : List Int) : List Int := a.map (k * ·)
+
+def norm1 (a : List Int) : Nat := (a.map Int.natAbs).sum
+
+def normInf (a : List Int) : Nat := a.foldr (fun x m => max x.natAbs m) 0
+
+end Lattigo.ZPoly
